@@ -22,7 +22,8 @@ RULE = ("For every k = 1..7 and every v < 4^k: obtain_latters(v, k) == [index(km
         "dna_to_number(kmer) == v (both result types), get_complete_accessor(k)[v][j] == j-th successor; k = 8..12 sampled at "
         "0, 4^k-1, 4^i, 4^i +- 1 and random indices with int / numpy.int64 / numpy.int32 arguments. Contract on "
         "connect_valid_graph, connect_coding_graph, latter_map_to_accessor, adjacency_matrix_to_accessor, remove_nasty_arc, "
-        "get_complete_accessor: every entry is -1 or succ_j(row). Non-trivial: k >= 2; distinct = hash of the case.")
+        "get_complete_accessor: every entry is -1 or succ_j(row); the complete accessor is requested again after an earlier result "
+        "was edited in place (directly and through remove_nasty_arc). Non-trivial: k >= 2; distinct = hash of the case.")
 
 
 def _shift_ok(acc):
@@ -78,6 +79,9 @@ def generate(ctx):
             yield "complete", dict(k=k)
         i += 1
     ctx.exhausted[EXHAUSTIVE[0]] = True
+    for _ in range(ctx.pick(3, 12)):
+        yield "complete_sequence", dict(k=rng.choice([1, 2, 2, 3, 4]), how=rng.choice(["direct", "remove_nasty_arc"]), rounds=rng.randint(1, 3),
+                                        nonce=rng.getrandbits(20))
     for _ in range(ctx.pick(60, 600)):
         k = rng.randint(8, 12)
         pts = {0, 4 ** k - 1}
@@ -166,6 +170,40 @@ def check_complete(ctx, case):
     ctx.done("complete", case, k >= 2)
 
 
+def check_complete_sequence(ctx, case):
+    """Multi-step: a complete accessor handed out earlier is edited in place (directly, and by the documented in-place
+    arc removal); the complete graph asked for afterwards must still hold the j-th successor in column j."""
+    dsw = import_dsw()
+    k = case["k"]
+    rng = ctx.rng
+    first = monitored(dsw.get_complete_accessor, 100 * 4 ** k + 5000, k)
+    if first.kind != "ok":
+        ctx.fail("complete-" + first.kind, "get_complete_accessor(%d) %s" % (k, first.describe()))
+        return
+    a = first.value
+    for step in range(case["rounds"]):
+        try:
+            if case["how"] == "direct":
+                for _ in range(3):
+                    a[rng.randrange(4 ** k), rng.randrange(4)] = -1
+            else:
+                lm = dsw.accessor_to_latter_map(a)
+                dsw.remove_nasty_arc(a, lm)
+        except Exception:  # noqa - the edit is the harness's own action; a failing removal is not judged here
+            pass
+        again = monitored(dsw.get_complete_accessor, 100 * 4 ** k + 5000, k)
+        if again.kind == "raised" and isinstance(again.exc, contracts.ContractBroken):
+            ctx.fail("contract:" + again.exc.name, "second get_complete_accessor(%d): %s" % (k, again.exc.witness))
+            return
+        if again.kind != "ok" or not np.array_equal(np.asarray(again.value), G.complete(k)):
+            ctx.fail("complete-accessor-differs-after-edit", "get_complete_accessor(%d) no longer returns the complete graph after an earlier result was edited in place (%s, round %d): %s" % (
+                k, case["how"], step, again.describe() if again.kind != "ok" else "%d wrong entries" % int((np.asarray(again.value) != G.complete(k)).sum())))
+            return
+        a = again.value
+    ctx.cls("complete|asked again after an in-place edit (%s)" % case["how"])
+    ctx.done("complete_sequence", case, True)
+
+
 def check_library_graphs(ctx, case):
     """Drive every accessor-producing function; the contract (installed in setup) is the oracle."""
     dsw = import_dsw()
@@ -220,7 +258,7 @@ def check_vertex(ctx, case):
     _vertex(ctx, import_dsw(), case["k"], case["v"], case["typ"])
 
 
-CHECKS = {"vertex": check_vertex, "vertices": check_vertices, "sampled": check_sampled, "complete": check_complete, "library_graphs": check_library_graphs}
+CHECKS = {"complete_sequence": check_complete_sequence, "vertex": check_vertex, "vertices": check_vertices, "sampled": check_sampled, "complete": check_complete, "library_graphs": check_library_graphs}
 
 
 def floors(agg, tier):
@@ -234,6 +272,8 @@ def floors(agg, tier):
         key = [x for x in m if x.startswith("contract-evaluations:%s." % fn)]
         if not key or m[key[0]] < (5 if fn == "get_complete_accessor" else 30):
             out.append("accessor invariant on %s evaluated %d times" % (fn, m[key[0]] if key else 0))
+    if c.get("complete|asked again after an in-place edit (direct)", 0) + c.get("complete|asked again after an in-place edit (remove_nasty_arc)", 0) < 20:
+        out.append("complete accessor re-requested after an in-place edit fewer than 20 times")
     for typ in ("int64", "int32"):
         if c.get("index-type|" + typ, 0) < 50:
             out.append("index type %s observed %d" % (typ, c.get("index-type|" + typ, 0)))
